@@ -566,9 +566,10 @@ func units16WithLone(max int) *rapid.Generator[[]uint16] {
 	return rapid.Custom(func(t *rapid.T) []uint16 {
 		u := gen.Units16(max).Draw(t, "s")
 		if rapid.IntRange(0, 9).Draw(t, "lone") == 0 {
+			// one or two surrogate code units at one position: high-high, low-high, low-low and (well-formed) high-low
 			pos := rapid.IntRange(0, len(u)).Draw(t, "pos")
-			s := rapid.SampledFrom([]uint16{0xD800, 0xDBFF, 0xDC00, 0xDFFF}).Draw(t, "sur")
-			u = append(u[:pos:pos], append([]uint16{s}, u[pos:]...)...)
+			ins := rapid.SliceOfN(rapid.SampledFrom([]uint16{0xD800, 0xD83D, 0xDBFF, 0xDC00, 0xDE00, 0xDFFF}), 1, 2).Draw(t, "sur")
+			u = append(u[:pos:pos], append(ins, u[pos:]...)...)
 		}
 		return u
 	})
@@ -588,9 +589,17 @@ func eq16(a, b []uint16) bool {
 
 func show16(u []uint16) string { return harness.JSString16(u) }
 
+func fromCharCode(u []uint16) string {
+	parts := make([]string, len(u))
+	for i, c := range u {
+		parts[i] = strconv.Itoa(int(c))
+	}
+	return "String.fromCharCode(" + strings.Join(parts, ",") + ")"
+}
+
 var encodeFacet = harness.Register(&harness.Facet[uriCase]{
 	Name:     "uri-encode",
-	Rule:     "rapid: encodeURI/encodeURIComponent on UTF-16 strings ≤12 units over ASCII (all reserved/unreserved/other punctuation, controls), Latin-1, BMP and astral alphabets, 10% with a lone surrogate inserted; oracle: Encode of 15.1.3 (URIError on lone surrogates) and the law decode(encode(s)) = s; non-trivial = the string has a character outside the function's unescaped set; distinct by (function, string)",
+	Rule:     "rapid: encodeURI/encodeURIComponent on UTF-16 strings ≤12 units over ASCII (all reserved/unreserved/other punctuation, controls), Latin-1, BMP and astral alphabets, 10% with one or two surrogate code units inserted at one position (built with String.fromCharCode while literals cannot hold them); oracle: Encode of 15.1.3 (URIError on lone surrogates) and the law decode(encode(s)) = s; non-trivial = the string has a character outside the function's unescaped set; distinct by (function, string)",
 	Quick:    25000,
 	Thorough: 150000,
 	Gen: func(t *rapid.T) uriCase {
@@ -604,12 +613,14 @@ var encodeFacet = harness.Register(&harness.Facet[uriCase]{
 			dec = "decodeURIComponent"
 		}
 		o := harness.Outcome{Classes: []string{c.Fn}}
+		arg := show16(c.Units)
 		if gen.HasLoneSurrogate(c.Units) {
+			o.Classes = append(o.Classes, "lone-surrogate")
 			if harness.Known("C13-LONE-SURROGATE") {
-				// representation limit: a lone surrogate written in source text is stored as U+FFFD
+				// representation limit: a lone surrogate written in source text is stored as U+FFFD; the
+				// string is built with String.fromCharCode instead, which keeps the code units
 				o.Excluded = []string{"C13-LONE-SURROGATE"}
-				o.Classes = append(o.Classes, "lone-surrogate")
-				return o
+				arg = fromCharCode(c.Units)
 			}
 		}
 		want, ok := es5.URIEncode(c.Units, set)
@@ -621,7 +632,7 @@ var encodeFacet = harness.Register(&harness.Facet[uriCase]{
 		if !ok {
 			o.Nontrivial = true
 		}
-		js := c.Fn + "(" + show16(c.Units) + ")"
+		js := c.Fn + "(" + arg + ")"
 		got, bad := evalStr(js)
 		switch {
 		case !ok:
@@ -637,7 +648,7 @@ var encodeFacet = harness.Register(&harness.Facet[uriCase]{
 			return o
 		}
 		// inverse law (for encodeURI: reserved characters and # were never escaped, so it holds too)
-		back, bad := evalStr(dec + "(" + c.Fn + "(" + show16(c.Units) + "))")
+		back, bad := evalStr(dec + "(" + c.Fn + "(" + arg + "))")
 		if bad != "" || !eq16(back, c.Units) {
 			o.Fail = fmt.Sprintf("%s(%s(%s)) = %s %s, want the original", dec, c.Fn, show16(c.Units), show16(back), bad)
 		}
